@@ -128,6 +128,85 @@ func loopVariant(f *ssa.Function, head *ssa.BasicBlock) (string, bool) {
 			return "string/slice window " + phi.Comment + " strictly shrinks on every back edge", true
 		}
 	}
+	// form 5: a walk around the simple-fold orbit of an invariant rune t: the
+	// loop variable starts at t or SimpleFold(t), every back edge replaces it
+	// by SimpleFold of itself, and a test executed in every iteration leaves the
+	// loop when it (or its successor) is t again.  unicode.SimpleFold is cyclic
+	// on the finite orbit of t, so t comes up after at most |orbit| steps.
+	isFold := func(v ssa.Value) (ssa.Value, bool) {
+		call, ok := v.(*ssa.Call)
+		if !ok || core.CalleeName(&call.Call) != "unicode.SimpleFold" {
+			return nil, false
+		}
+		return call.Call.Args[0], true
+	}
+	for _, in := range head.Instrs {
+		phi, ok := in.(*ssa.Phi)
+		if !ok {
+			break
+		}
+		var t, step ssa.Value
+		good := true
+		for i, e := range phi.Edges {
+			if body[head.Preds[i]] {
+				x, isF := isFold(e)
+				if !isF || x != ssa.Value(phi) || (step != nil && step != e) {
+					good = false
+					break
+				}
+				step = e
+				continue
+			}
+			start := e
+			if x, isF := isFold(e); isF {
+				start = x
+			}
+			if inLoop(start) || (t != nil && t != start) {
+				good = false
+				break
+			}
+			t = start
+		}
+		if !good || t == nil || step == nil {
+			continue
+		}
+		for _, e := range exits {
+			cond, truth := core.StripNot(e.Cond, true)
+			b, ok := cond.(*ssa.BinOp)
+			if !ok || (b.Op != token.EQL && b.Op != token.NEQ) {
+				continue
+			}
+			var x ssa.Value
+			switch {
+			case b.Y == t:
+				x = b.X
+			case b.X == t:
+				x = b.Y
+			default:
+				continue
+			}
+			if x != ssa.Value(phi) && x != step {
+				continue
+			}
+			// leaves the loop when x == t
+			eqSucc := 0
+			if (b.Op == token.NEQ) == truth {
+				eqSucc = 1
+			}
+			if body[e.Block().Succs[eqSucc]] {
+				continue
+			}
+			everyIter := true
+			for _, p := range head.Preds {
+				if body[p] && !e.Block().Dominates(p) && e.Block() != p {
+					everyIter = false
+				}
+			}
+			if everyIter {
+				return "walk around the simple-fold orbit of " + t.Name() + " (finite and cyclic), left when back at it", true
+			}
+		}
+	}
 	var conds []string
 	for _, e := range exits {
 		conds = append(conds, core.Describe(e.Cond))
